@@ -434,16 +434,21 @@ Proof. destruct a, b, c; cbn; intros; try congruence; try contradiction; auto. Q
 Lemma req_bind {A B} (a b : res A) (f : A -> res B) : req a b -> req (bind a f) (bind b f).
 Proof. destruct a, b; cbn; intros H; try contradiction; [subst; apply req_refl | exact I]. Qed.
 
-(* the six classes of a tag *)
+(* the six classes of a tag; the empty string is no tag at all ("if not tag:
+   continue") and goes with the tags that leave the scan state alone *)
 Inductive tcls := CPainted | CTarget | CPrimary | CChr | CHap | COther.
 
 Definition cls (tag : str) : tcls :=
-  if str_eqb tag (s "Painted") then CPainted
-  else if str_eqb tag (s "Target") then CTarget
-  else if str_eqb tag (s "Primary") then CPrimary
-  else if looks_like_chr_name tag then CChr
-  else if negb (mem_str tag other_known_tags) then CHap
-  else COther.
+  match tag with
+  | [] => COther
+  | _ :: _ =>
+      if str_eqb tag (s "Painted") then CPainted
+      else if str_eqb tag (s "Target") then CTarget
+      else if str_eqb tag (s "Primary") then CPrimary
+      else if looks_like_chr_name tag then CChr
+      else if negb (mem_str tag other_known_tags) then CHap
+      else COther
+  end.
 
 Definition scan_cls (st : tagscan) (tag : str) (c : tcls) : res tagscan :=
   match c with
@@ -466,13 +471,17 @@ Definition scan_cls (st : tagscan) (tag : str) (c : tcls) : res tagscan :=
 
 Lemma scan_tag_cls st tag : scan_tag st tag = scan_cls st tag (cls tag).
 Proof.
-  unfold scan_tag, cls.
-  destruct (str_eqb tag (s "Painted")); [reflexivity|].
-  destruct (str_eqb tag (s "Target")); [reflexivity|].
-  destruct (str_eqb tag (s "Primary")); [reflexivity|].
-  destruct (looks_like_chr_name tag); [reflexivity|].
-  destruct (negb (mem_str tag other_known_tags)); reflexivity.
+  unfold scan_tag, cls. destruct tag as [|c0 tag0]; [reflexivity|].
+  destruct (str_eqb (c0 :: tag0) (s "Painted")); [reflexivity|].
+  destruct (str_eqb (c0 :: tag0) (s "Target")); [reflexivity|].
+  destruct (str_eqb (c0 :: tag0) (s "Primary")); [reflexivity|].
+  destruct (looks_like_chr_name (c0 :: tag0)); [reflexivity|].
+  destruct (negb (mem_str (c0 :: tag0) other_known_tags)); reflexivity.
 Qed.
+
+(* only a non-empty string is ever taken for a haplotype *)
+Lemma cls_hap_nonempty tag : cls tag = CHap -> tag <> [].
+Proof. destruct tag; [discriminate | intros _; discriminate]. Qed.
 
 (* invariant of the lower-case haplotype dict: no empty spelling *)
 Definition lc_ok (lc : list (str * str)) : Prop := Forall (fun p => snd p <> []) lc.
@@ -496,7 +505,7 @@ Proof.
 Qed.
 
 Lemma scan_cls_lc_ok st tag c st' :
-  lc_ok (ts_lc st) -> tag <> [] -> scan_cls st tag c = Ok st' -> lc_ok (ts_lc st').
+  lc_ok (ts_lc st) -> (c = CHap -> tag <> []) -> scan_cls st tag c = Ok st' -> lc_ok (ts_lc st').
 Proof.
   intros L NE H. destruct c; cbn [scan_cls] in H.
   1-3: injection H as <-; exact L.
@@ -517,7 +526,7 @@ Proof.
     cbn [bind ts_name]; rewrite E; reflexivity.
 Qed.
 
-(* two (non-empty) haplotype tags always fail *)
+(* two haplotype tags always fail *)
 Lemma hap_hap_fails st x y : lc_ok (ts_lc st) -> x <> [] ->
   (do a <- scan_cls st x CHap; scan_cls a y CHap) = Err TaggingError.
 Proof.
@@ -528,13 +537,13 @@ Proof.
 Qed.
 
 Lemma scan_cls_swap st x y cx cy :
-  lc_ok (ts_lc st) -> x <> [] -> y <> [] -> x <> y ->
+  lc_ok (ts_lc st) -> (cx = CHap -> x <> []) -> (cy = CHap -> y <> []) -> x <> y ->
   req (do a <- scan_cls st x cx; scan_cls a y cy) (do a <- scan_cls st y cy; scan_cls a x cx).
 Proof.
   intros L Nx Ny N.
   destruct cx, cy;
     try (rewrite (chr_chr_fails st x y N), (chr_chr_fails st y x (not_eq_sym N)); exact I);
-    try (rewrite (hap_hap_fails st x y L Nx), (hap_hap_fails st y x L Ny); exact I);
+    try (rewrite (hap_hap_fails st x y L (Nx eq_refl)), (hap_hap_fails st y x L (Ny eq_refl)); exact I);
     repeat (cbn [scan_cls bind ts_name ts_hap ts_painted ts_rank ts_primary ts_target ts_lc];
             match goal with
             | H : ?z = _ |- context [match ?z with _ => _ end] => rewrite H
@@ -553,22 +562,19 @@ Proof.
   rewrite E. destruct (g s0 x); cbn [bind]; auto.
 Qed.
 
-Lemma scan_perm l l' : Permutation l l' -> NoDup l -> ~ In [] l ->
+(* no side condition on the list: equal neighbours swap trivially, empty
+   strings leave the state alone *)
+Lemma scan_perm l l' : Permutation l l' ->
   forall st, lc_ok (ts_lc st) -> req (foldM scan_tag' l st) (foldM scan_tag' l' st).
 Proof.
-  induction 1 as [| x l l' P IH | x y l | l l' l'' P1 IH1 P2 IH2]; intros ND NI st L.
+  induction 1 as [| x l l' P IH | x y l | l l' l'' P1 IH1 P2 IH2]; intros st L.
   - apply req_refl.
-  - cbn [foldM]. inversion ND as [|? ? Nx ND']; subst.
-    destruct (scan_tag' st x) as [a|e] eqn:E; cbn [bind]; [|exact I].
-    apply IH; [exact ND' | intro X; apply NI; right; exact X|].
-    unfold scan_tag' in E. eapply scan_cls_lc_ok; [exact L | | exact E].
-    intro X; apply NI; left; exact X.
   - cbn [foldM].
-    assert (Ny : y <> []) by (intro X; apply NI; left; exact X).
-    assert (Nx : x <> []) by (intro X; apply NI; right; left; exact X).
-    assert (N : y <> x).
-    { inversion ND as [|? ? Ni _]; subst. intro X. apply Ni. left. symmetry. exact X. }
-    pose proof (scan_cls_swap st y x (cls y) (cls x) L Ny Nx N) as Hs.
+    destruct (scan_tag' st x) as [a|e] eqn:E; cbn [bind]; [|exact I].
+    apply IH. unfold scan_tag' in E. eapply scan_cls_lc_ok; [exact L | apply cls_hap_nonempty | exact E].
+  - destruct (str_eqb y x) eqn:Eyx; [apply str_eqb_eq in Eyx; subst y; apply req_refl|].
+    apply str_eqb_neq in Eyx. cbn [foldM].
+    pose proof (scan_cls_swap st y x (cls y) (cls x) L (cls_hap_nonempty y) (cls_hap_nonempty x) Eyx) as Hs.
     unfold scan_tag'.
     destruct (scan_cls st y (cls y)) as [a|]; destruct (scan_cls st x (cls x)) as [b|]; cbn [bind] in *.
     + destruct (scan_cls a x (cls x)) as [a'|]; destruct (scan_cls b y (cls y)) as [b'|];
@@ -576,21 +582,20 @@ Proof.
     + destruct (scan_cls a x (cls x)) as [a'|]; cbn [req bind] in *; [contradiction | exact I].
     + destruct (scan_cls b y (cls y)) as [b'|]; cbn [req bind] in *; [contradiction | exact I].
     + exact I.
-  - eapply req_trans; [apply IH1; assumption|].
-    apply IH2; [eapply Permutation_NoDup; eauto | | exact L].
-    intro X. apply NI. eapply Permutation_in; [apply Permutation_sym; exact P1 | exact X].
+  - eapply req_trans; [apply IH1; assumption|]. apply IH2. exact L.
 Qed.
 
-Lemma scan_tag_perm l l' st : Permutation l l' -> NoDup l -> ~ In [] l -> lc_ok (ts_lc st) ->
+(* the scan of a tag set does not depend on the iteration order *)
+Lemma scan_tag_perm l l' st : Permutation l l' -> lc_ok (ts_lc st) ->
   req (foldM scan_tag l st) (foldM scan_tag l' st).
 Proof.
-  intros P ND NI L.
+  intros P L.
   rewrite !(foldM_ext scan_tag scan_tag' scan_tag_cls). apply scan_perm; assumption.
 Qed.
 
-(* C17 as stated (for EVERY namer) is false: a namer whose haplotype dict maps a
-   lower-case haplotype to the empty spelling makes the first haplotype tag
-   falsy, so a second one is accepted or rejected depending on the order. *)
+(* C17 for EVERY namer is false: a namer whose haplotype dict maps a lower-case
+   haplotype to the empty spelling makes the first haplotype tag falsy, so a
+   second one is accepted or rejected depending on the order. *)
 Theorem tags_perm_needs_lc_ok : exists nm n rows tags tags',
   Permutation tags tags' /\ NoDup tags /\ ~ In [] tags /\ tags <> [] /\
   is_ok (make_scaffold_name nm n rows tags) = true /\
@@ -605,37 +610,104 @@ Proof.
   split; vm_compute; reflexivity.
 Qed.
 
-(* ... and true of every namer whose haplotype dict has no empty spelling *)
+(* ... and true of every namer whose haplotype dict has no empty spelling, for
+   ANY two orders of the same tags (duplicates, empty strings and the empty
+   set -- which falls back to fragment_tags on both sides -- included) *)
 Theorem tags_perm_invariant : forall nm n rows tags tags',
   lc_ok (nm_hap_lc nm) ->
-  Permutation tags tags' -> NoDup tags -> ~ In [] tags -> tags <> [] ->
+  Permutation tags tags' ->
   match make_scaffold_name nm n rows tags, make_scaffold_name nm n rows tags' with
   | Ok a, Ok b => a = b
   | Err _, Err _ => True
   | _, _ => False
   end.
 Proof.
-  intros nm n rows tags tags' L P ND NI NE.
+  intros nm n rows tags tags' L P.
   change (req (make_scaffold_name nm n rows tags) (make_scaffold_name nm n rows tags')).
   rewrite !make_scaffold_name_eq. apply req_bind.
-  assert (NE' : tags' <> []).
-  { intro X. subst tags'. apply Permutation_sym, Permutation_nil in P. contradiction. }
-  replace (eff_tags rows tags) with tags by (destruct tags; [contradiction | reflexivity]).
-  replace (eff_tags rows tags') with tags' by (destruct tags'; [contradiction | reflexivity]).
-  apply scan_tag_perm; auto.
+  destruct tags as [|t0 tags0].
+  { apply Permutation_nil in P. subst tags'. apply req_refl. }
+  destruct tags' as [|t0' tags0'].
+  { apply Permutation_sym, Permutation_nil in P. discriminate P. }
+  cbn [eff_tags]. apply scan_tag_perm; [exact P | exact L].
+Qed.
+
+(* the same for the fall-back: any order of the fragment tags of the rows *)
+Theorem fragment_tags_perm_invariant : forall nm n rows l,
+  lc_ok (nm_hap_lc nm) -> l <> [] -> Permutation (fragment_tags rows) l ->
+  match make_scaffold_name nm n rows [], make_scaffold_name nm n rows l with
+  | Ok a, Ok b => a = b
+  | Err _, Err _ => True
+  | _, _ => False
+  end.
+Proof.
+  intros nm n rows l L NE P.
+  change (req (make_scaffold_name nm n rows []) (make_scaffold_name nm n rows l)).
+  rewrite !make_scaffold_name_eq. apply req_bind.
+  replace (eff_tags rows l) with l by (destruct l; [contradiction | reflexivity]).
+  cbn [eff_tags]. apply scan_tag_perm; [exact P | exact L].
+Qed.
+
+(* ---- the pinned-commit scan (no "if not tag: continue"): the EMPTY tag is a
+   falsy haplotype, and the outcome depends on the order of the tag set *)
+Definition scan_tag_legacy (st : tagscan) (tag : str) : res tagscan :=
+  if str_eqb tag (s "Painted") then
+    Ok (mkScan (ts_name st) (ts_hap st) true (ts_rank st) (ts_primary st) (ts_target st) (ts_lc st))
+  else if str_eqb tag (s "Target") then
+    Ok (mkScan (ts_name st) (ts_hap st) (ts_painted st) (ts_rank st) (ts_primary st) true (ts_lc st))
+  else if str_eqb tag (s "Primary") then
+    Ok (mkScan (ts_name st) (ts_hap st) (ts_painted st) (ts_rank st) true (ts_target st) (ts_lc st))
+  else if looks_like_chr_name tag then
+    match ts_name st with
+    | Some n => if negb (str_eqb tag n) then Err TaggingError
+                else Ok (mkScan (Some tag) (ts_hap st) (ts_painted st) (Some 2) (ts_primary st) (ts_target st) (ts_lc st))
+    | None => Ok (mkScan (Some tag) (ts_hap st) (ts_painted st) (Some 2) (ts_primary st) (ts_target st) (ts_lc st))
+    end
+  else if negb (mem_str tag other_known_tags) then
+    if truthy (ts_hap st) then Err TaggingError
+    else
+      let '(h, lc) := get_set_haplotype (ts_lc st) tag in
+      Ok (mkScan (ts_name st) (Some h) (ts_painted st) (ts_rank st) (ts_primary st) (ts_target st) lc)
+  else Ok st.
+
+Definition make_scaffold_name_legacy (nm : namer) (sc_name0 : str) (rows : list row) (tags : list str)
+  : res namer :=
+  do sc <- foldM scan_tag_legacy (eff_tags rows tags) (scan0 nm); finish nm sc_name0 rows sc.
+
+(* the two scans differ on the empty string only *)
+Lemma scan_tag_legacy_nonempty st tag : tag <> [] -> scan_tag_legacy st tag = scan_tag st tag.
+Proof. destruct tag; [contradiction | reflexivity]. Qed.
+
+Lemma make_scaffold_name_legacy_agrees nm n rows tags :
+  ~ In [] (eff_tags rows tags) ->
+  make_scaffold_name_legacy nm n rows tags = make_scaffold_name nm n rows tags.
+Proof.
+  intro NI. rewrite make_scaffold_name_eq. unfold make_scaffold_name_legacy. f_equal.
+  generalize (scan0 nm). induction (eff_tags rows tags) as [|t l IH]; intro st; cbn [foldM]; [reflexivity|].
+  rewrite scan_tag_legacy_nonempty by (intro X; apply NI; left; exact X).
+  destruct (scan_tag st t); cbn [bind]; [|reflexivity].
+  apply IH. intro X. apply NI. right. exact X.
 Qed.
 
 Theorem tags_order_matters_with_empty_tag : exists nm n rows t1 t2,
-  Permutation t1 t2 /\ is_ok (make_scaffold_name nm n rows t1) = true
-  /\ is_ok (make_scaffold_name nm n rows t2) = false.
+  Permutation t1 t2 /\ is_ok (make_scaffold_name_legacy nm n rows t1) = true
+  /\ is_ok (make_scaffold_name_legacy nm n rows t2) = false.
 Proof.
   exists (new_namer (s "SUPER_")), (s "Scaffold_1"), [RF (mkFrag 0 (s "c") 1 5 1 [])],
          [[]; s "Hap1"], [s "Hap1"; []].
   split; [apply perm_swap|]. split; vm_compute; reflexivity.
 Qed.
 
+(* the repaired scan accepts that witness in both orders, with the same result *)
+Theorem empty_tag_witness_repaired :
+  let nm := new_namer (s "SUPER_") in
+  let rows := [RF (mkFrag 0 (s "c") 1 5 1 [])] in
+  exists r, make_scaffold_name nm (s "Scaffold_1") rows [[]; s "Hap1"] = Ok r
+         /\ make_scaffold_name nm (s "Scaffold_1") rows [s "Hap1"; []] = Ok r.
+Proof. vm_compute. eexists. split; reflexivity. Qed.
+
 (* ---- [lc_ok] is an invariant of the namer: it holds initially and is kept by
-   label_scaffold and by make_scaffold_name (when no effective tag is empty) *)
+   label_scaffold and by make_scaffold_name *)
 Lemma lc_ok_new_namer p : lc_ok (nm_hap_lc (new_namer p)).
 Proof. constructor. Qed.
 
@@ -671,25 +743,23 @@ Proof.
   refine (proj2 (get_set_haplotype_ok lc1 (c :: h') p _ L _ G)). discriminate.
 Qed.
 
-Lemma foldM_scan_lc_ok tags : forall st st', lc_ok (ts_lc st) -> ~ In [] tags ->
+Lemma foldM_scan_lc_ok tags : forall st st', lc_ok (ts_lc st) ->
   foldM scan_tag tags st = Ok st' -> lc_ok (ts_lc st').
 Proof.
-  induction tags as [|t tags IH]; intros st st' L NI H; cbn [foldM] in H.
+  induction tags as [|t tags IH]; intros st st' L H; cbn [foldM] in H.
   - injection H as <-. exact L.
   - unfold bind in H. destruct (scan_tag st t) as [a|] eqn:E; [|discriminate].
-    eapply IH; [| | exact H].
-    + rewrite scan_tag_cls in E. eapply scan_cls_lc_ok; [exact L | | exact E].
-      intro X. apply NI. left. exact X.
-    + intro X. apply NI. right. exact X.
+    eapply IH; [| exact H].
+    rewrite scan_tag_cls in E. eapply scan_cls_lc_ok; [exact L | apply cls_hap_nonempty | exact E].
 Qed.
 
 Theorem make_scaffold_name_lc_ok : forall nm n rows tags nm',
-  lc_ok (nm_hap_lc nm) -> ~ In [] (eff_tags rows tags) ->
+  lc_ok (nm_hap_lc nm) ->
   make_scaffold_name nm n rows tags = Ok nm' -> lc_ok (nm_hap_lc nm').
 Proof.
-  intros nm n rows tags nm' L NI H. rewrite make_scaffold_name_eq in H. unfold bind in H.
+  intros nm n rows tags nm' L H. rewrite make_scaffold_name_eq in H. unfold bind in H.
   destruct (foldM scan_tag (eff_tags rows tags) (scan0 nm)) as [sc|] eqn:E; [|discriminate].
-  pose proof (foldM_scan_lc_ok _ (scan0 nm) _ L NI E) as L1.
+  pose proof (foldM_scan_lc_ok _ (scan0 nm) _ L E) as L1.
   unfold finish, bind in H.
   destruct (fin_hap rows sc) as [[hap lc1]|] eqn:E1; [|discriminate].
   destruct (fin_prim nm sc hap lc1) as [[prim lc2]|] eqn:E2; [|discriminate].
@@ -706,9 +776,12 @@ Print Assumptions target_monotone_make.
 Print Assumptions target_set_by_tag.
 Print Assumptions target_monotone_label.
 Print Assumptions tags_perm_invariant.
+Print Assumptions fragment_tags_perm_invariant.
 Print Assumptions tags_perm_needs_lc_ok.
 Print Assumptions make_scaffold_name_lc_ok.
+Print Assumptions make_scaffold_name_legacy_agrees.
 Print Assumptions tags_order_matters_with_empty_tag.
+Print Assumptions empty_tag_witness_repaired.
 Print Assumptions asm_key_of_tagged.
 Print Assumptions asm_key_of_untagged.
 Print Assumptions fuse_step_keeps_keys.
